@@ -305,7 +305,7 @@ pub fn out_dims(op: &Op, a: &[&[usize]]) -> Option<Vec<usize>> {
                 }
                 Some(a[0].to_vec())
             }
-            CustomKind::Prod2 => {
+            CustomKind::Prod2 | CustomKind::Prod2Crate => {
                 if a.len() != 2 || a[0] != a[1] {
                     return None;
                 }
@@ -543,7 +543,7 @@ pub fn eval<S: Scalar>(op: &Op, args: &[(&[usize], &[S])]) -> Vec<S> {
                     s
                 })
                 .collect(),
-            CustomKind::Prod2 => (0..n).map(|i| args[0].1[i].mul(args[1].1[i])).collect(),
+            CustomKind::Prod2 | CustomKind::Prod2Crate => (0..n).map(|i| args[0].1[i].mul(args[1].1[i])).collect(),
             CustomKind::NestedSq => args[0].1.iter().map(|x| x.mul(*x)).collect(),
         },
     }
